@@ -170,7 +170,7 @@ fn law_block(r: &mut Report, seed: u64, runs: u64) {
 }
 
 pub fn run(cfg: &Cfg) -> Report {
-    let n: u64 = if cfg.thorough { 300_000 } else { 12_000 };
+    let n: u64 = if cfg.thorough { 3000000 } else { 60000 };
     let seed = cfg.seed;
     let mut rep = run_sharded(&cfg.driver, cfg.threads, n, || Report::new("sel", RULE), |d, r, i| {
         let mut g = SplitMix::derive(seed, i);
@@ -199,7 +199,7 @@ pub fn run(cfg: &Cfg) -> Report {
         r.hit("exhaustive population (<=4 individuals, keys in {0,1,2}) x every k");
     });
     rep.merge(ex);
-    law_block(&mut rep, seed, if cfg.thorough { 200_000 } else { 20_000 });
+    law_block(&mut rep, seed, if cfg.thorough { 1000000 } else { 50000 });
     rep.notes.push("exhaustive scope: all 120 populations of 1..=4 individuals with keys in {0,1,2}, every tournament size, both polarities".into());
     rep
 }
